@@ -868,10 +868,12 @@ func runC16(p *core.Prog, r *core.Report) {
 		em := p.Func(pkgPipe, "Pipeline.executeModules")
 		okErr := true
 		n := 0
-		for _, c := range core.FindInstrs(em, core.IsCallTo(p.FuncObj(pkgPipe, "Pipeline.applyExecutionResult"))) {
-			n++
-			if !core.ErrorTested(c) {
-				okErr = false
+		for _, member := range core.Family(em, 2) {
+			for _, c := range core.FindInstrs(member, core.IsCallTo(p.FuncObj(pkgPipe, "Pipeline.applyExecutionResult"))) {
+				n++
+				if !core.ErrorTested(c) {
+					okErr = false
+				}
 			}
 		}
 		r.Check(okErr && n >= 2, "C16.R4", "executeModules/result-errors", "the error of every module result is tested and aborts the block", "applyExecutionResult error ignored", p.Pos(em.Pos()))
